@@ -2,6 +2,7 @@ package main
 
 import (
 	"fmt"
+	"go/constant"
 	"go/token"
 	"strings"
 
@@ -864,6 +865,68 @@ func c14HasMissing(c *Ctx) {
 			}
 		}
 		c.verdict(falseNil && !missingErr, key+":missing-is-false-nil", fn.Pos(), "has a (false, nil) answer and never returns a missing-class error", "HasChunk has no (false, nil) answer or returns ChunkMissing/NoSuchObject as an error")
+	}
+	// a failure of the stat request is not "missing": on the paths on which the request failed
+	// with something that none of the function's own tests recognises (not-exist, NoSuchKey,
+	// AccessDenied), the result carries a non-nil error
+	for key, stat := range map[string]string{"S3Store.HasChunk": "minio-go/v6.Client).StatObject", "SFTPStore.HasChunk": "pkg/sftp.Client).Stat"} {
+		fn := c.mustFn(key)
+		if fn == nil {
+			continue
+		}
+		sites := 0
+		var bad []string
+		h := &Hooks{MaxVisits: 2}
+		h.Fork = func(st *State, call *ssa.Call) []map[int]Val {
+			if !strings.HasSuffix(callee(call), stat) {
+				return nil
+			}
+			sites++
+			ei := errResultIndex(call)
+			return []map[int]Val{{ei: {N: NNil, Class: ClsNil}}, {ei: {N: NNon, Class: ClsOther, Sym: "failed:stat"}}}
+		}
+		h.Call = func(st *State, call *ssa.Call) map[int]Val {
+			// os.IsNotExist on the failed stat: both answers are possible; "no" is the interesting one
+			if callee(call) == "os.IsNotExist" {
+				return map[int]Val{0: {B: BFalse}}
+			}
+			return nil
+		}
+		h.Return = func(st *State, ret *ssa.Return, results []Val) {
+			if !st.Has("outcome:failed") || len(results) != 2 {
+				return
+			}
+			// a path that recognised the error as "not there" (type switch on the error code) may
+			// answer (false, nil); the explorer cannot evaluate string comparisons of the code, so
+			// only the path that matched none of them - the default - is judged: it is the one on
+			// which the comparison results are all "no"
+			if st.Flags["matched-code"] == 1 {
+				return
+			}
+			if results[1].N != NNon {
+				bad = append(bad, fmt.Sprintf("return at %s answers (%v, %v) after the stat request failed with an error that is not 'missing'", c.pos(ret.Pos()), results[0], results[1]))
+			}
+		}
+		h.Branch = func(st *State, iff *ssa.If, taken bool) {
+			// comparisons of the error code with a constant string: the taken "equal" edge is a recognised code
+			if cm, truth, ok := cmpOf(iff.Cond); ok && cm.op == token.EQL {
+				for _, v := range []ssa.Value{cm.x, cm.y} {
+					if k, isK := v.(*ssa.Const); isK && k.Value != nil && k.Value.Kind() == constant.String && taken == truth {
+						st.Flags["matched-code"] = 1
+					}
+				}
+			}
+		}
+		Explore(fn, fn.Blocks[0], 0, nil, NewState(), h)
+		c.paths += h.Paths
+		switch {
+		case sites == 0:
+			c.bad(key+":failure-is-error", fn.Pos(), "HasChunk does not stat the object")
+		case len(bad) > 0:
+			c.bad(key+":failure-is-error", fn.Pos(), "%s: a lost connection or a 5xx looks like a missing chunk, a failover group does not fail over and a chunk server answers 404", bad[0])
+		default:
+			c.ok(key+":failure-is-error", fn.Pos(), "a failed stat that is not recognised as 'missing' is reported as an error")
+		}
 	}
 }
 
